@@ -57,32 +57,32 @@ theorem absP_fill (r : Rb) (g : List Nat) (p : Option Nat) (q : List (List Nat))
 
 /-- **One log call = `alloc (reservation)` + `commit (actual)`.**  For a blackbox whose ring `rb`
     satisfies the ring invariant with contents `q`, and a call whose record is not longer than its
-    reservation: the reserve/commit FIFO executes `alloc (maxSize t c)`; if that finds no room
+    reservation: the reserve/commit FIFO executes `alloc (maxSize (msgLimit e t) c)`; if that finds no room
     the blackbox gives its ring up; otherwise the FIFO executes `commit (record)` and the
     blackbox's new ring satisfies the invariant with the FIFO's new contents: what the
     allocation left of `q`, followed by the record. -/
 theorem vlogger_alloc_commit (e : Env) (t : Target) (c : Call) (rb : Rb) (q : List (List Nat)) (TR : Nat)
     (hinst : t.inst = some rb) (hinv : Inv rb q TR) (how : rb.ow = true)
-    (hlen : (record e t.maxLine c).length = actualBase c + (serMessage e t.maxLine c).len)
-    (hscr : (recHead c ++ Dump.toLe32 (serMessage e t.maxLine c).len ++ (serMessage e t.maxLine c).scratch).length
-      ≤ maxSize t c)
-    (hfit : (record e t.maxLine c).length ≤ maxSize t c) :
-    ∃ s1 o, FifoP.step true ⟨absF rb q, none⟩ (.alloc (maxSize t c)) = some (s1, o) ∧
+    (hlen : (record e (msgLimit e t) c).length = actualBase c + (serMessage e (msgLimit e t) c).len)
+    (hscr : (recHead c ++ Dump.toLe32 (serMessage e (msgLimit e t) c).len ++ (serMessage e (msgLimit e t) c).scratch).length
+      ≤ maxSize (msgLimit e t) c)
+    (hfit : (record e (msgLimit e t) c).length ≤ maxSize (msgLimit e t) c) :
+    ∃ s1 o, FifoP.step true ⟨absF rb q, none⟩ (.alloc (maxSize (msgLimit e t) c)) = some (s1, o) ∧
       (s1.pend = none → (vlogger e t c).inst = none) ∧
-      (s1.pend = some (maxSize t c) → ∃ rb' TR', (vlogger e t c).inst = some rb' ∧
-        Inv rb' (s1.f.q ++ [record e t.maxLine c]) TR' ∧ rb'.ow = true ∧
-        FifoP.step true s1 (.commit (record e t.maxLine c))
-          = some (⟨absF rb' (s1.f.q ++ [record e t.maxLine c]), none⟩, .num 0)) ∧
-      (s1.pend = none ∨ s1.pend = some (maxSize t c)) := by
+      (s1.pend = some (maxSize (msgLimit e t) c) → ∃ rb' TR', (vlogger e t c).inst = some rb' ∧
+        Inv rb' (s1.f.q ++ [record e (msgLimit e t) c]) TR' ∧ rb'.ow = true ∧
+        FifoP.step true s1 (.commit (record e (msgLimit e t) c))
+          = some (⟨absF rb' (s1.f.q ++ [record e (msgLimit e t) c]), none⟩, .num 0)) ∧
+      (s1.pend = none ∨ s1.pend = some (maxSize (msgLimit e t) c)) := by
   have hP : PInv ⟨rb, none⟩ q TR := ⟨hinv, by intro n hn; simp at hn⟩
-  have h1 := pstep_sim hP (.alloc (maxSize t c))
+  have h1 := pstep_sim hP (.alloc (maxSize (msgLimit e t) c))
   unfold PStepOk at h1
-  have hstep : RbP.step ⟨rb, none⟩ (.alloc (maxSize t c)) =
-      match rb.alloc (maxSize t c) with
+  have hstep : RbP.step ⟨rb, none⟩ (.alloc (maxSize (msgLimit e t) c)) =
+      match rb.alloc (maxSize (msgLimit e t) c) with
       | (r', some er) => some (⟨r', none⟩, .err er)
-      | (r1, none) => some (⟨r1, some (maxSize t c)⟩, .unit) := rfl
+      | (r1, none) => some (⟨r1, some (maxSize (msgLimit e t) c)⟩, .unit) := rfl
   rw [hstep] at h1
-  cases ha : rb.alloc (maxSize t c) with
+  cases ha : rb.alloc (maxSize (msgLimit e t) c) with
   | mk r1 oe =>
     cases oe with
     | some er =>
@@ -101,23 +101,23 @@ theorem vlogger_alloc_commit (e : Env) (t : Target) (c : Call) (rb : Rb) (q : Li
       · intro hp; simp [absP] at hp
       · intro _
         -- the stores
-        have hPA := fill_pinv (recHead c ++ Dump.toLe32 (serMessage e t.maxLine c).len ++
-          (serMessage e t.maxLine c).scratch) hP1 hscr
+        have hPA := fill_pinv (recHead c ++ Dump.toLe32 (serMessage e (msgLimit e t) c).len ++
+          (serMessage e (msgLimit e t) c).scratch) hP1 hscr
         -- the commit
-        have h2 := pstep_sim hPA (.commit (record e t.maxLine c))
+        have h2 := pstep_sim hPA (.commit (record e (msgLimit e t) c))
         unfold PStepOk at h2
-        have hstep2 : RbP.step ⟨r1.fill (recHead c ++ Dump.toLe32 (serMessage e t.maxLine c).len ++
-              (serMessage e t.maxLine c).scratch), some (maxSize t c)⟩ (.commit (record e t.maxLine c))
-            = some (⟨((r1.fill (recHead c ++ Dump.toLe32 (serMessage e t.maxLine c).len ++
-                (serMessage e t.maxLine c).scratch)).fill (record e t.maxLine c)).commit
-                  (record e t.maxLine c).length, none⟩, .num 0) := by
+        have hstep2 : RbP.step ⟨r1.fill (recHead c ++ Dump.toLe32 (serMessage e (msgLimit e t) c).len ++
+              (serMessage e (msgLimit e t) c).scratch), some (maxSize (msgLimit e t) c)⟩ (.commit (record e (msgLimit e t) c))
+            = some (⟨((r1.fill (recHead c ++ Dump.toLe32 (serMessage e (msgLimit e t) c).len ++
+                (serMessage e (msgLimit e t) c).scratch)).fill (record e (msgLimit e t) c)).commit
+                  (record e (msgLimit e t) c).length, none⟩, .num 0) := by
           simp [RbP.step, hfit]
         rw [hstep2] at h2
         obtain ⟨q2, TR2, hP2, how2, hf2⟩ := h2
         simp only [fill_ow, how1] at hf2 how2
         rw [absP_fill] at hf2
         -- the FIFO's commit appends the record
-        have hq2 : q2 = q' ++ [record e t.maxLine c] := by
+        have hq2 : q2 = q' ++ [record e (msgLimit e t) c] := by
           have := hf2
           simp only [FifoP.step, absP, hfit, if_true, Option.some.injEq, Prod.mk.injEq, FifoP.mk.injEq, and_true] at this
           have hq := congrArg Fifo.q this
